@@ -8,6 +8,8 @@ package main
 import (
 	"context"
 	"errors"
+	"runtime/pprof"
+	"strconv"
 	"reflect"
 	"runtime"
 	"time"
@@ -63,7 +65,7 @@ func plainResolve(ctx graphql.FieldContext) (interface{}, error) {
 	r.noteCreate(it)
 	switch it.kind {
 	case kGo:
-		ch := apifu.Go(ctx.Context, r.goFunc(it))
+		ch := apifu.Go(ctx.Context, r.goFunc(it, ctx.Context))
 		r.setProm(it.id, ch)
 		return ch, nil
 	case kBatch:
@@ -122,9 +124,16 @@ func getter(ctx graphql.FieldContext) (interface{}, error) {
 		r.setProm(it.id, v.(graphql.ResolvePromise))
 		return v, err
 	}
-	ch := apifu.Go(ctx.Context, r.goFunc(it))
+	ch := apifu.Go(ctx.Context, r.goFunc(it, ctx.Context))
 	r.setProm(it.id, ch)
 	return ch, nil
+}
+
+func connLabel(spec *connSpec) string {
+	if len(spec.chains) > 0 {
+		return "c" + strconv.Itoa(spec.chains[0])
+	}
+	return "none"
 }
 
 func edgesOf(spec *connSpec, n int) []edgeVal {
@@ -145,7 +154,10 @@ func connResolve(orig func(graphql.FieldContext) (interface{}, error)) func(grap
 		if !r.syncMode && spec.pageInfo {
 			r.noteCreate(r.items[spec.connItem])
 		}
-		v, err := orig(ctx)
+		var v interface{}
+		var err error
+		// the goroutines the library starts for this connection (chain / join) inherit the label
+		pprof.Do(ctx.Context, pprof.Labels("c15conn", connLabel(spec)), func(context.Context) { v, err = orig(ctx) })
 		if spec.pageInfo {
 			if v != nil {
 				r.connByObj[v] = spec
@@ -168,7 +180,9 @@ func pageInfoResolve(orig func(graphql.FieldContext) (interface{}, error)) func(
 			return orig(ctx)
 		}
 		r.curConn, r.getterCall = spec, 0
-		v, err := orig(ctx)
+		var v interface{}
+		var err error
+		pprof.Do(ctx.Context, pprof.Labels("c15conn", connLabel(spec)), func(context.Context) { v, err = orig(ctx) })
 		if !r.syncMode {
 			r.noteChains(spec, v)
 		}
